@@ -15,7 +15,7 @@ Theorem view_sound_tt : forall V s1 s2 c genOK mta,
 Proof.
   intros V s1 s2 c genOK mta Hl [_ G1] [_ G2] Hv.
   unfold relevant in Hv.
-  injection Hv as Hslots Hg0 Hts Hus Htb Hch _ _ Hopts _ _.
+  injection Hv as Hslots Hg0 Hts Hus Htb Hch _ _ Hopts _ _ _.
   unfold search_prologue. rewrite Hl. cbn [st_tt].
   unfold search_generation in Hslots, Hg0.
   unfold tt_rel.
@@ -41,14 +41,15 @@ Definition ex_oracle : SearchCmd -> N -> View -> list Write := fun c nd v =>
    WProbe 2; WHistSuccess 3 20 4%Z; WHistFail 9 41 2%Z; WKiller 2 77; WEval 5 123; WMat 9 4].
 
 Definition ex_opts : list (Opt * Z) := [(OHash, 1%Z); (OContempt, 25%Z); (OOther 7, 3%Z)].
-Definition ex_cmd (txt : N) (white limited : bool) : SearchCmd := mkSearchCmd txt white limited false None 50%Z.
+Definition ex_cmd (txt : N) (white limited : bool) : SearchCmd :=
+  mkSearchCmd txt white limited false None 50%Z (if limited then mkGo 0 0 (Z.of_N txt * 100) 0 None false false [7] else mkGo 0 0 0 50 None false false []).
 Definition ex_history : list Cmd :=
   [Search (ex_cmd 10 false true) 0 true 0%Z;
    SetOption OContempt (-40)%Z;
    Search (ex_cmd 11 true false) 5 true 0%Z;
    UciNewGame 777;
    SetOption OHash 4%Z;
-   Search (mkSearchCmd 12 true false true (Some 3) (-1)%Z) 9 true 0%Z;     (* go infinite on a KQK-like root *)
+   Search (mkSearchCmd 12 true false true (Some 3) (-1)%Z (mkGo 0 0 0 0 None true false [])) 9 true 0%Z;     (* go infinite on a KQK-like root *)
    SetOption OAnalyseMode 1%Z;
    Search (ex_cmd 13 false true) 0 true 0%Z;
    SetOption OAnalyseMode 0%Z;
@@ -75,9 +76,9 @@ Proof. apply clear_equiv_fresh; vm_compute; reflexivity. Qed.
 Example ex_tb_resident :
   tbResident (st_tt (run fixed_code ex_oracle (firstn 6 ex_history) (init fixed_code ex_opts))) = None /\
   tbResident (st_tt (run fixed_code ex_oracle
-     [SetOption OHash 16%Z; Search (mkSearchCmd 12 true false true (Some 3) (-1)%Z) 9 true 0%Z] fresh)) = Some 3 /\
+     [SetOption OHash 16%Z; Search (mkSearchCmd 12 true false true (Some 3) (-1)%Z (mkGo 0 0 0 0 None true false [])) 9 true 0%Z] fresh)) = Some 3 /\
   tbResident (st_tt (run fixed_code ex_oracle
-     [SetOption OHash 16%Z; Search (mkSearchCmd 12 true false true (Some 3) (-1)%Z) 9 true 0%Z; ClearHash] fresh)) = None.
+     [SetOption OHash 16%Z; Search (mkSearchCmd 12 true false true (Some 3) (-1)%Z (mkGo 0 0 0 0 None true false [])) 9 true 0%Z; ClearHash] fresh)) = None.
 Proof. vm_compute. repeat split. Qed.
 
 (** [view_sound_probes] is applicable to a cleared and a pristine state *)
